@@ -45,6 +45,11 @@ def _random_blocks(rng, nx, n_stretch, n_match):
             break
     else:
         blocks = [(k * (nx // nseg), k * (nx // nseg) + max(1, nx // nseg - 2)) for k in range(nseg)]
+    # now and then a stretch that selects a single location
+    if rng.random() < 0.2:
+        k = rng.randrange(len(blocks))
+        j = rng.randint(blocks[k][0], blocks[k][1])
+        blocks[k] = (j, j)
     # matching sections need two blocks of equal length: trim
     order = list(range(nseg))
     rng.shuffle(order)
